@@ -163,3 +163,11 @@ def api_highlight_positions(vals=None, out=None):
         if pos != want:
             bad.append({"id": i, "braille": br, "get_braille_position": pos, "cells_with_dots_7_8": want})
     return bool(bad), {"script": "UEB, EndPoints, " + TEST_EXPR, "mismatches": bad}
+
+
+def api_nemeth_double_cap(vals=None, out=None):
+    """Role-level API recipe for the Nemeth look-back: a node whose braille starts right after a two-cell prefix."""
+    res = mcprobe([("pref", "BrailleCode Nemeth"), ("pref", "BrailleNavHighlight EndPoints"),
+                   ("mathml", '<math><mtext id="a">AB</mtext></math>'), ("braille", "a"), ("setnav", "a 0"), "brpos"])
+    bad = [r for r in res if r[0] != "OK"]
+    return bool(bad), {"script": "Nemeth, EndPoints, <mtext id='a'>AB</mtext>, get_braille('a')", "results": res[3:]}
